@@ -85,7 +85,7 @@ impl Invite {
 pub enum TokenType { AllowedPeer(AllowedPeer), OwnedInvite(OwnedInvite), Invite(Invite) }
 impl TokenType {
     #[verifier::external_body]
-    pub fn clone(&self) -> (r: TokenType) { unimplemented!() }
+    pub fn clone(&self) -> (r: TokenType) ensures r == *self { unimplemented!() }   // #[derive(Clone)]
 }
 pub enum Query { ProveIdentity(Vec<u8>), Other() }
 pub struct QueryService { x: u8 }
@@ -109,7 +109,9 @@ pub enum RemoteEvent { Ready, ReadyFingerprint, RoomDefinitionChanged(Uid), Room
 pub struct PeerConnectionService { x: u8 }
 impl PeerConnectionService {
     #[verifier::external_body]
-    pub async fn invite_accepted(&self, token: TokenType, peer: Node) { unimplemented!() }
+    pub async fn invite_accepted(&self, token: TokenType, peer: Node)
+        requires !(token is AllowedPeer)     // PeerManager::invite_accepted (unit u12_invites) treats any other token type as unreachable
+    { unimplemented!() }
     #[verifier::external_body]
     pub async fn connected(&self, verifying_key: Vec<u8>, conn_id: Uid) { unimplemented!() }
 }
